@@ -38,7 +38,11 @@ theorem decodeRRs_total (ip6 : Bytes → PtrIP) (count : Nat) (e : DNSEntry) (p 
     Returns (decodeRRs ip6 count e p offset u).2 :=
   decodeRRs_returns ip6 count e p offset u
 
-/-- **DecodeAnswers** (exported) on arbitrary bytes -/
+/-- **DecodeAnswers** (exported) on arbitrary bytes, for every entry.  A Go `DNSEntry` whose maps
+    are nil (the zero value) is the entry with four empty maps here: `decodeRRs` creates the maps
+    that are nil before it writes (fix commit; before it the exported call panicked with
+    "assignment to entry in nil map" on a zero entry as soon as a record was storable — the
+    `dns.answers0` lines run the real call on the zero entry). -/
 theorem decodeAnswers_total (ip6 : Bytes → PtrIP) (e : DNSEntry) (p : Bytes) (offset : Int) :
     Returns (decodeAnswers ip6 e p offset).2 :=
   decodeAnswers_returns ip6 e p offset
@@ -48,8 +52,11 @@ theorem processDNS_total (ip6 : Bytes → PtrIP) (t : DNSTable) (p : Bytes) : Re
   processDNS_returns ip6 t p
 
 /-- **ProcessMDNS** terminates: `qd + an + ns + ar + 5` loop iterations (the header's own
-    counts) always suffice, on every payload; the handler itself has no panicking operation
-    (the result is always a value). -/
+    counts) always suffice, on every payload — this bound is what the theorem proves.  That the
+    result is a value and not `.panic` holds by construction of `Model/DnsMsg.lean`: it models
+    `dnsmessage.Parser`, a trusted external library, as total `Except`-valued functions with its
+    bounds checks, and the handler's own loop has no indexing; that the real `dnsmessage` does not
+    panic is an assumption (checks.json) watched by the harness on every generated input. -/
 theorem mdns_terminates (payload : Bytes) (fuel : Nat) (h : mdnsBound payload ≤ fuel) :
     ∃ o, processMDNS fuel payload = .ok o :=
   processMDNS_terminates payload fuel h
@@ -74,12 +81,36 @@ theorem nbnsNodeStatus_total (b : Bytes) : Returns (nbnsNodeStatus b) := nbnsNod
 /-- **decodeNBNSName** on arbitrary bytes -/
 theorem decodeNBNSName_total (b : Bytes) : Returns (decodeNBNSName b) := decodeNBNSName_returns b
 
-/-- **SSDP cache-control logic**: every header value yields an expiry, never a panic
-    (the pair loop reads `options[i+1]` only when `i+1 < len(options)`). -/
+/-- **SSDP cache-control logic**: every header value yields an expiry.  The model writes the pair
+    loop `for i := 0; i+1 < len(options); i += 2` of the fixed code as a pattern match on
+    `k :: v :: rest`, so an out-of-range `options[i+1]` cannot be expressed in it: this theorem is
+    totality of the model, and the index safety of the Go loop rests on the correspondence
+    (`ssdp.cc` lines: every split shape of the header value, incl. the pre-fix witness
+    `x=max-age`), declared in checks.json. -/
 theorem ssdpExpiry_total (cc : Bytes) : ∃ v, ssdpExpirySeconds cc = .ok v := by
   unfold ssdpExpirySeconds
   simp only []
   split <;> exact ⟨_, rfl⟩
+
+/-- the guard `o2 + l ≤ off` in the model of `unpackOPTResource`'s loop (`Model/DnsMsg.lean`, kept so
+    that the recursion is structural) is never taken: after the two 16-bit reads `o2 = off + 4`. -/
+theorem optLoop_guard_unreachable (msg : Bytes) (off x l o1 o2 : Nat)
+    (h1 : unpackUint16 msg off = .ok (x, o1)) (h2 : unpackUint16 msg o1 = .ok (l, o2)) : ¬ (o2 + l ≤ off) := by
+  have e1 : o1 = off + 2 := by
+    unfold unpackUint16 at h1
+    split at h1
+    · cases h1
+    · split at h1
+      · injection h1 with h1; injection h1 with _ h1; exact h1.symm
+      · cases h1
+  have e2 : o2 = o1 + 2 := by
+    unfold unpackUint16 at h2
+    split at h2
+    · cases h2
+    · split at h2
+      · injection h2 with h2; injection h2 with _ h2; exact h2.symm
+      · cases h2
+  omega
 
 /-- **EncodeDNSQuery** does not panic for encoded names of at most 496 bytes (every caller
     passes the 34-byte NBNS name); longer names do panic (`finding`-style witness below). -/
